@@ -268,12 +268,13 @@ fn scenario() -> impl Strategy<Value = Scenario> {
     let script = prop_oneof![
         9 => Just(Ok((true, true))),
         2 => Just(Ok((true, false))),
-        1 => Just(Ok((false, false))),
+        2 => Just(Ok((false, false))),
+        1 => Just(Ok((false, true))),
         1 => Just(Err(0x27u8)),
     ];
     (
         (0u8..5, prop_oneof![Just(HmacCfg::None), Just(HmacCfg::UvOnly), Just(HmacCfg::UvOnlyMc), Just(HmacCfg::WithoutUvMc)], any::<bool>(), prop_oneof![4 => Just(Disc::Full), 1 => Just(Disc::OnlyNonDiscoverable), 2 => Just(Disc::ForcedDiscoverable)]),
-        (proptest::bool::weighted(0.12), proptest::bool::weighted(0.93), any::<bool>(), script, 0usize..3, prop_oneof![6 => Just(Some(true)), 1 => Just(None)]),
+        (proptest::bool::weighted(0.12), proptest::bool::weighted(0.8), any::<bool>(), script, 0usize..3, prop_oneof![6 => Just(Some(true)), 1 => Just(None)]),
         (proptest::bool::weighted(0.9), proptest::bool::weighted(0.05), prop_oneof![2 => Just(0u8), 1 => Just(1u8), 3 => Just(2u8)], 0u8..3, prop_oneof![Just(None), Just(Some(0u32)), Just(Some(41)), Just(Some(u32::MAX))], any::<bool>(), 0usize..3),
     )
         .prop_map(|((op, hmac, counter_cfg, disc), (rk, up, uv, outcome, uv_yields, ve), (algs_supported, pin_auth, list, prf, cred_counter, cred_has_hmac, store_yields))| Scenario {
